@@ -567,4 +567,44 @@ theorem no_expired_after_maintenance (n : Node) (k start : Nat) (limit : Option 
 /-- differing lifetimes: the expired value in front of a longer-lived one is removed -/
 example : cleanItems 100 [⟨1, 1, 50, 10, 0⟩, ⟨2, 2, 0, 3600, 0⟩] = [⟨2, 2, 0, 3600, 0⟩] := by decide
 
+/-! ## the property, sentence by sentence, in every reachable state -/
+
+/-- For every crypto interface, start time and history of operations, the state `n` reached satisfies:
+    (1) a store request is accepted only from an unblocked requester, within the size and count limits, with the token hash
+        of this requester under a live secret younger than TOKEN_EXPIRATION_TIME;
+    (2) a lookup over any value list reports a signer only with the data of a verifying value of that signer whose
+        version is maximal among the signer's verifying values;
+    (3) a put of an older version than the stored one changes nothing, and there is one value per signer under every key;
+    (4) after maintenance no stored value is expired. -/
+theorem c15_all_histories {Tok : Type} [DecidableEq Tok] (C : Crypto Tok) (t0 : Nat) (ops : List (Op Tok)) :
+    (∀ r : StoreReq Tok,
+      ((((Node.init t0).run C ops).storeReq C r).1.store ≠ ((Node.init t0).run C ops).store ∨
+        (((Node.init t0).run C ops).storeReq C r).2 = true) →
+      ((Node.init t0).run C ops).blocked r.nid = false ∧ (∀ v ∈ r.values, v.len ≤ Gen.maxEntrySize) ∧
+      r.values.length ≤ Gen.maxValuesInStore ∧
+      ∃ sb ∈ ((Node.init t0).run C ops).secrets, C.tokenHash r.who.addr r.who.mid sb.1 = r.token ∧
+        ((Node.init t0).run C ops).now < sb.2 + Gen.tokenExpirationTime) ∧
+    (∀ blobs res, postProcess C blobs = some res → ∀ d pk, (d, some pk) ∈ res →
+      ∃ v, (∃ b ∈ blobs, ∃ pkh sig, b.wire = .signed d v pk pkh sig ∧ C.verify pk d v sig = true) ∧
+        ∀ b' ∈ blobs, ∀ d' v' pkh' sig', b'.wire = .signed d' v' pk pkh' sig' → C.verify pk d' v' sig' = true →
+          v' ≤ v) ∧
+    (∀ k nv old, (((Node.init t0).run C ops).store.getItems k).find? (fun v => v.id == nv.id) = some old →
+      nv.version < old.version →
+      ∀ k', (((Node.init t0).run C ops).store.put k nv).getItems k' = ((Node.init t0).run C ops).store.getItems k') ∧
+    (∀ k, IdsNodup (((Node.init t0).run C ops).store.getItems k)) ∧
+    (∀ k, ∀ v ∈ ((Node.init t0).run C ops).clean.store.getItems k, v.expired ((Node.init t0).run C ops).now = false) := by
+  refine ⟨?_, ?_, ?_, ?_, ?_⟩
+  · intro r h
+    obtain ⟨h1, h2, h3, _⟩ := store_requires_token C _ r h
+    obtain ⟨sb, hs, he, hf⟩ := accepted_token_is_fresh C t0 ops r h
+    exact ⟨h1, h2, h3, sb, hs, he, hf⟩
+  · intro blobs res h d pk hm
+    exact highest_version_per_signer C blobs res h d pk hm
+  · intro k nv old hf hlt k'
+    exact put_older_is_noop _ k nv old hf hlt k'
+  · intro k
+    exact one_value_per_signer C t0 ops k
+  · intro k
+    exact (no_expired_after_maintenance _ k 0 none).1
+
 end Ipv8.C15
